@@ -8,31 +8,31 @@ BASELINE = json.load(open('/root/.vp/BASELINE.json'))['cmd'] if os.path.exists('
 CHECKS = {
  "C01": ("exploration",
    "bounded-exhaustive enumeration of (current, desired) schema pairs executed on a real SQLite engine through the schema-apply flow, judged by re-diff and by an independent engine-catalogue comparison",
-   "All ordered pairs of schema states built from <=1 feature (quick; plus 2-feature states against their sub-states) or <=2 features (thorough, ~460k pairs) out of 38 elementary SQLite features: the current state is created by our own DDL (two spellings), the desired one is HCL from our own writer; the real inspect/diff/plan/apply runs in a transaction; the second diff must be empty, no statement may be rejected, and the engine catalogue read by our own pragma dump must equal that of the desired schema created directly.",
-   "SQLite only (no MySQL/PostgreSQL server in the sandbox); the feature catalogue bounds the schemas; the CLI slice is covered by the CLI-driven checks."),
+   "All ordered pairs of schema states built from <=1 feature (quick; plus 2-feature states against their sub-states) or <=2 features (thorough, ~460k pairs) out of 48 elementary SQLite features: the current state is created by our own DDL (two spellings), the desired one is HCL from our own writer; the real inspect/diff/plan/apply runs in a transaction; the second diff must be empty, no statement may be rejected, and the engine catalogue read by our own pragma dump must equal that of the desired schema created directly. The desired state is also taken from atlas' own export of an inspected database, the database may hold a view over the changed table, and a CLI slice runs the real `atlas schema apply --auto-approve` (HCL file and live database as sources), `schema diff` (must report synced) and a second apply (must be a no-op).",
+   "SQLite only (no MySQL/PostgreSQL server in the sandbox); the feature catalogue bounds the schemas."),
  "C02": ("exploration",
    "bounded-exhaustive enumeration of edit sets over independently built schema graphs for the three real differs, judged by ground-truth change descriptors the generator knows",
-   "For MySQL, PostgreSQL and SQLite differs in the CLI's normalized mode: every elementary edit of a ~50-edit catalogue (incl. composite foreign-key column permutations) (one per change kind / kind bit the community build emits, plus multi-bit combinations) alone under 5 listing orders, every compatible pair (thorough: permuted too, and every compatible triple), documented spelling equivalences, identity/deep-copy/permuted copies and schema add/drop: the flattened change tree must equal exactly the expected descriptors (path, type, kind bits); RealmDiff/TableDiff must agree and a repeated diff must not change.",
+   "For MySQL, PostgreSQL and SQLite differs in the CLI's normalized mode: every elementary edit of a ~70-edit catalogue (incl. composite foreign-key column permutations) (one per change kind / kind bit the community build emits, plus multi-bit combinations) alone under 5 listing orders, every compatible pair (thorough: permuted too, and every compatible triple), documented spelling equivalences, identity/deep-copy/permuted copies and schema add/drop: the flattened change tree must equal exactly the expected descriptors (path, type, kind bits); RealmDiff/TableDiff must agree and a repeated diff must not change.",
    "Connection-less DefaultDiff (no server): version-dependent behaviour is pinned to what the drivers assume offline."),
  "C03": ("exploration",
    "bounded-exhaustive enumeration of database states on a real SQLite engine; both exports are re-materialised on fresh engines and compared by atlas' differ and by an independent catalogue dump",
-   "Every engine-valid state with <=2 (thorough <=3) features x 2 DDL spellings is created on a real engine; the HCL export is evaluated, diffed both ways and applied to an empty engine; the SQL export (dump-mode plan, default formatter, read back by the SQLite scanner) is executed on an empty engine and diffed both ways; both recreated catalogues must equal the original; two inspections must produce identical bytes.",
+   "Every engine-valid state with <=2 (thorough <=3) features x 2 DDL spellings is created on a real engine; the HCL export is evaluated, diffed both ways and applied to an empty engine; the SQL export (dump-mode plan, default formatter, read back by the SQLite scanner) is executed on an empty engine and diffed both ways; both recreated catalogues must equal the original; two inspections must produce identical bytes. A CLI slice runs the real `atlas schema inspect` (HCL and `{{ sql . }}` formats), re-creates both exports on fresh files and requires `schema diff` to report synced both ways.",
    "SQLite only; comparison normalises auto-index names, unique-index origin, column order."),
  "C04": ("exploration",
    "exhaustive enumeration of all foreign-key digraphs up to a size bound x table splits, planned by the real MySQL/PostgreSQL planners and replayed from statement text by a reference catalogue",
-   "All directed graphs with self loops over n<=3 tables (thorough: also all 65536 graphs on 4 tables) x every split of the tables into kept/created/dropped x edge modes between kept tables x {MySQL, PostgreSQL} x plan modes: the change set comes from the real differ, the plan from the real planner (every change set is planned twice: identical plans required); a reference catalogue replays the statements from their text and requires: a table exists before any foreign key pointing at it is declared, no table is dropped while a foreign key of another table points at it, every table is created/dropped at most once, the final catalogue equals the desired one, and the planner neither fails, panics nor hangs.",
+   "All directed graphs with self loops over n<=3 tables (thorough: also all 65536 graphs on 4 tables) x every split of the tables into kept/created/dropped x edge modes between kept tables x {MySQL, PostgreSQL} x plan modes {unset, deferred, in-place, dump} x {one schema, tables spread over two schemas that share table names}: the change set comes from the real differ, the plan from the real planner (every change set is planned twice: identical plans required); a reference catalogue replays the statements from their text and requires: a table exists before any foreign key pointing at it is declared, no table is dropped while a foreign key of another table points at it, every table is created/dropped at most once, the final catalogue equals the desired one, and the planner neither fails, panics nor hangs.",
    "n=4 covers all splits with added kept-kept edges only (stated in evidence); random larger graphs are not claimed."),
  "C05": ("exploration",
    "bounded-exhaustive enumeration of (populated current, desired) pairs executed on a real SQLite engine; rows read before/after by an independent connection",
-   "The C01 pair space with the current database populated (3 rows per table, two NULL variants): after the real apply every row of the changed table is present and every surviving same-typed column holds the same value (NULL back-filled by a new NOT NULL DEFAULT excepted), untouched tables are byte-identical; a plan may fail only when a reference rule says the desired schema cannot hold the data.",
+   "The C01 pair space with the current database populated (3 rows per table, two NULL variants, child rows referencing the parent through an ON DELETE CASCADE foreign key), applied inside and outside a transaction, desired state from HCL or from atlas' own export: after the real apply every row of the changed table is present and every surviving same-typed column holds the same value (NULL back-filled by a new NOT NULL DEFAULT excepted), untouched tables are byte-identical; a plan may fail only when a reference rule says the desired schema cannot hold the data.",
    "SQLite only; value conversion on type changes is not judged."),
  "C06": ("model_checking",
    "explicit-state BFS over directory-writer histories with canonical-state dedup (invariant: Validate==nil) plus exhaustive single-edit tamper neighbourhood of every small reached state, judged by a reference materiality model",
-   "BFS to depth 3 (thorough 4) over the real writers (WritePlan x 6 formatters, WriteCheckpoint, CopyFiles; MemDir and LocalDir) checks that every reachable directory validates; for every small reached state and 8 hand-built ones (sum-ignored files, awkward names) every single edit - each byte of each file and of atlas.sum substituted/deleted/inserted, file add/remove/rename/swap/move-tail, sum line operations - is applied and the real Validate must fail with a checksum error exactly when the reference model says the edit is material. A BFS to depth 3 (thorough 4) over CLI histories {migrate new, migrate diff x 2 desired schemas, migrate hash, 5 hand edits} on a real directory (clock seam VERIF_NOW) checks that writer commands refuse and leave untouched a directory whose sum does not match, leave a valid directory otherwise, and that `migrate validate` / `migrate apply` accept the directory exactly when it was not edited since atlas last wrote or re-hashed it, in agreement with migrate.Validate(LocalDir).",
-   "`migrate import` is not driven; third-party directory formats are covered in process only (their file names come from the wall clock); bodies of sum-ignored files and whitespace-only sum edits are immaterial by design and not judged."),
+   "BFS to depth 3 (thorough 4) over the real writers (WritePlan x 6 formatters, WriteCheckpoint, CopyFiles; MemDir and LocalDir) checks that every reachable directory validates; for every small reached state and 8 hand-built ones (sum-ignored files, awkward names) every single edit - each byte of each file and of atlas.sum substituted/deleted/inserted, file add/remove/rename/swap/move-tail, sum line operations - is applied and the real Validate must fail with a checksum error exactly when the reference model says the edit is material. A BFS to depth 3 (thorough 4) over CLI histories {migrate new, migrate diff x 2 desired schemas, migrate hash, 5 hand edits} on a real directory (clock seam VERIF_NOW) checks that writer commands refuse and leave untouched a directory whose sum does not match, leave a valid directory otherwise, and that `migrate validate` / `migrate apply` accept the directory exactly when it was not edited since atlas last wrote or re-hashed it, in agreement with migrate.Validate(LocalDir) and with `schema inspect --url file://...` (absolute and relative). `migrate import` of 5 third-party formats x version sets (incl. flyway repeatable/baseline/undo files) must write a directory that validates.",
+   "third-party directory formats are covered in process only (their file names come from the wall clock); bodies of sum-ignored files and whitespace-only sum edits are immaterial by design and not judged."),
  "C07": ("exploration",
    "bounded-exhaustive enumeration of adversarial strings x slots x change kinds x formatters x indents x delimiters; each plan of the real planners is formatted, read back with the matching reader and dialect scanner and compared with the planned statements",
-   "Plans of the real MySQL/PostgreSQL/SQLite planners over a two-table schema in which one slot (thorough: every pair of slots) of 11 holds each of 22 adversarial strings (quotes, comment markers, delimiters, LF, CR LF, CR, ...), for create/drop/alter/alter-back change sets x 6 formatters x 2 indents x 4 plan delimiters (atlas format): the statements read back with the matching directory reader and the dialect's scanner must equal Plan.Changes[].Cmd in count, order and text, and no text of a comment line may reach a statement. The atlas formatter is also exercised through Planner.WriteCheckpoint, and for create plans with at most one adversarial slot the directory written by each third-party formatter is imported by the real `atlas migrate import` and must again yield exactly the planned statements.",
+   "Plans of the real MySQL/PostgreSQL/SQLite planners over a two-table schema in which one slot (thorough: every pair of slots) of 13 holds each of 32 adversarial strings (quotes, comment markers, delimiters, LF, CR LF, CR, ...), for create/drop/alter/alter-back change sets x 6 formatters x 2 indents x 4 plan delimiters (atlas format): the statements read back with the matching directory reader and the dialect's scanner must equal Plan.Changes[].Cmd in count, order and text, and no text of a comment line may reach a statement. The atlas formatter is also exercised through Planner.WriteCheckpoint, and for create plans with at most one adversarial slot the directory written by each third-party formatter is imported by the real `atlas migrate import` and must again yield exactly the planned statements. Hand-written third-party files (3 statements x 4 terminator spellings x 3 file endings x 5 formats) are read through the format's own reader and through `migrate import`.",
    "The schema shape is fixed (the strings and slots vary); random schemas are not claimed."),
  "C08": ("exploration",
    "bounded-exhaustive enumeration of all token strings up to a length bound and of all generated well-formed scripts, each scanned by the real Scanner and judged by an independent gap lexer / known split",
@@ -44,15 +44,15 @@ CHECKS = {
    "In-process recording driver and revision store stand in for the database (the property is about the executor's ordering of the two stores); a failed write persists nothing."),
  "C10": ("fault_enumeration",
    "exhaustive enumeration of every instrumented crash point x occurrence x transaction mode x directory shape on the real CLI binary and a real SQLite file; the process is killed and the command re-run",
-   "For tx-mode file/all/none and 4 (thorough 14) directory shapes incl. per-file txmode directives, a counting run lists every crash point the real `atlas migrate apply` passes (before/after each statement, each revision write, each commit); for each one the process is killed there (exit 137, no deferred code) on a fresh SQLite file and the same command is run again: after the crash no file may be half applied in file/all mode and no revision may record more statements than took effect; after the re-run every statement's effect is present exactly once (none mode: at most the one in-flight statement twice) and all revisions are complete.",
+   "For tx-mode file/all/none and 7 (thorough 17) directory shapes incl. per-file txmode directives and checkpoint files, a counting run lists every crash point the real `atlas migrate apply` passes (before/after each statement, each revision write, each commit); for each one the process is killed there (exit 137, no deferred code) on a fresh SQLite file and the same command is run again: after the crash no file may be half applied in file/all mode and no revision may record more statements than took effect; after the re-run every statement's effect is present exactly once (none mode: at most the one in-flight statement twice) and all revisions are complete.",
    "SQLite file engine only; kill = os.Exit at a hook (not a torn disk write - SQLite's journal recovery is trusted); the advisory lock of the killed process is assumed expired."),
  "C11": ("model_checking",
    "exhaustive enumeration of (directory, revision table, options) configurations on the real Executor.Pending/ExecuteN against an executable set-based reference model, plus breadth-first search over CLI operation histories (add/apply/set/fix/remove) on the real binary with the same model as oracle",
-   "Every directory over a universe of 4 (thorough: 5) versions (absent/migration/checkpoint) x every revision table (any subset applied, last optionally partial, with or without a recorded error) x exec order x {none, allow-dirty, baseline=v} x {clean, dirty} is decided by the real Executor.Pending and compared - error class, out-of-order set and exact file list - with refPending written from the documented semantics; ExecuteN(n) for every n must run exactly the first n pending files and leave none of them pending. A BFS to depth 4 (thorough 5) over CLI histories {add file, add failing file, add checkpoint file, add out-of-order file, apply, apply 1, apply non-linear / linear-skip, set 2, set 4, fix, remove newest} on a real SQLite file checks in every reached state that `migrate status` reports the model's pending/out-of-order files for the actual revision rows, that `migrate apply [n]` executes exactly the statements the decision implies, and that nothing up to v is pending after `migrate set v`.",
+   "Every directory over a universe of 4 (thorough: 5) versions (absent/migration/checkpoint) x every revision table (any subset applied, last optionally partial, with or without a recorded error) x exec order x {none, allow-dirty, baseline=v} x {clean, dirty} is decided by the real Executor.Pending and compared - error class, out-of-order set and exact file list - with refPending written from the documented semantics; ExecuteN(n) for every n and ExecuteTo(v) for every v must run exactly the decided prefix and leave none of it pending, and the same executor must decide afterwards like a fresh one. A BFS to depth 4 (thorough 5) over CLI histories {start with two applied, add file, add failing file, add checkpoint file, add out-of-order (failing) file, apply, apply 1, apply non-linear / linear-skip, set 1..4, fix, remove newest} on a real SQLite file checks in every reached state that `migrate status` reports the model's pending/out-of-order files for the actual revision rows, that `migrate apply [n]` executes exactly the statements the decision implies, and that nothing up to v is pending after `migrate set v`.",
    "Recording driver/store in process for the configuration sweep, SQLite file for the CLI BFS; fixed-width versions; cases the documentation does not define are counted, not judged."),
  "C12": ("model_checking",
    "exhaustive enumeration of (file, progress, edit) histories executed on the real migrate.Executor, judged by the prefix-equality rule",
-   "All files of n<=5 statements x every partial progress k (revision produced by a real failing run) x every single edit (thorough: every pair of edits for n<=4) x 2 directory layouts are re-hashed and re-run on the real Executor: a changed applied prefix must give HistoryChangedError, zero executed statements, untouched history and no panic; a changed tail must resume with exactly the new tail and leave the version done for a following Pending. A CLI slice repeats the rule on a real SQLite file: n in 2..4 x k x {no / `migrate set` on the partially applied version} x 6 edits, with the partial revision produced by the real `migrate apply --tx-mode none`; a panic of the CLI is a violation.",
+   "All files of n<=5 statements x every partial progress k (revision produced by a real failing run) x every single edit (thorough: every pair of edits for n<=4) x 2 directory layouts x {fresh, reused} executor are re-hashed and re-run on the real Executor: a changed applied prefix must give HistoryChangedError, zero executed statements, untouched history and no panic; a changed tail must resume with exactly the new tail and leave the version done for a following Pending. A CLI slice repeats the rule on a real SQLite file: n in 2..4 x k x {no / `migrate set` on the partially applied version} x 6 edits, with the partial revision produced by the real `migrate apply --tx-mode none`; a panic of the CLI is a violation.",
    "Recording driver/store in process, SQLite file for the CLI slice; timestamps and operator version excluded from 'untouched'."),
  "C13": ("fault_enumeration",
    "exhaustive enumeration of failing-statement positions x transaction modes x per-file directives x apply counts on the real CLI and a real SQLite file, judged by a reference model of each mode and by differential full dumps",
@@ -60,31 +60,31 @@ CHECKS = {
    "SQLite file engine only; statement failure = a statement the engine really rejects."),
  "C14": ("fault_enumeration",
    "exhaustive enumeration of dev-database commands x dev states x failing-statement positions on the real CLI with a SQLite file as dev database; dev dump and directory bytes compared before/after",
-   "Commands migrate diff / validate / lint --latest N and schema apply|diff|inspect with SQL (and HCL) sources x dev state {empty, table with rows, view only, thorough: table+trigger} x directory / schema-file shapes (creating tables, indexes, views and triggers) with, at every position (and nowhere), a statement the engine rejects or one it accepts but atlas cannot inspect (replay succeeds, reading the state back fails): a non-empty dev database must be refused and left byte-identical; an empty one must be handed back with no tables, indexes, views or triggers whether the command succeeded or failed; the migration directory must not be written by a replay (migrate diff may add one file and refresh the sum on success).",
+   "Commands migrate diff / validate / lint --latest N and schema apply|diff|inspect with SQL (and HCL) sources x dev state {empty, table with rows, view only, FTS/R-tree virtual tables only, table named sqlitefoo, thorough: table+trigger} x directory / schema-file shapes (creating tables, indexes, views and triggers) with, at every position (and nowhere), a statement the engine rejects or one it accepts but atlas cannot inspect (replay succeeds, reading the state back fails): a non-empty dev database must be refused and left byte-identical; an empty one must be handed back with no tables, indexes, views or triggers whether the command succeeded or failed; the migration directory must not be written by a replay (migrate diff may add one file and refresh the sum on success).",
    "SQLite file as dev database; commands that do not use the dev database for a given source (HCL on SQLite) are only required to leave it untouched."),
  "C15": ("exploration",
    "bounded-exhaustive enumeration over the exported type registries x parameter grid and over the differ universe states, each pushed through MarshalHCL/EvalHCL of the real codecs and compared by differ, formatted types, own structural comparison and byte fixpoint",
-   "For the MySQL, PostgreSQL and SQLite codecs: every registered type spec x parameter grid (size, precision/scale, time precision, unsigned, enum/set values, PostgreSQL arrays) must be a FormatType/ParseType fixpoint and survive MarshalHCL -> EvalHCLBytes as a column type with empty diff both ways and identical bytes on re-marshal; every state of the differ universe (base, +1 edit or equivalence; thorough +2 edits) must round-trip with empty diff both ways, equal element lists / attribute sets / formatted types by our own comparison, and byte-identical re-marshal.",
+   "For the MySQL, PostgreSQL and SQLite codecs: every registered type spec x parameter grid (size, precision/scale, time precision, unsigned, enum/set values, PostgreSQL arrays) must be a FormatType/ParseType fixpoint and survive MarshalHCL -> EvalHCLBytes as a column type with empty diff both ways and identical bytes on re-marshal; every state of the differ universe (base, +1 edit or equivalence; thorough +2 edits) must round-trip with empty diff both ways, equal element lists / attribute sets / formatted types by our own comparison, and byte-identical re-marshal; a type whose bare spelling means 'unlimited' must not collide with a parameterised spelling.",
    "Types are enumerated through the registry's own spec list; values outside the parameter grid are not claimed."),
  "C16": ("exploration",
    "bounded-exhaustive enumeration of change sets x qualifier x plan mode through the real MySQL/PostgreSQL planners; every forward and reverse statement tokenised by an independent quoted-identifier scanner",
-   "For the MySQL and PostgreSQL planners: change sets from the real differ (every single edit of the differ universe, thorough every compatible pair; create-all, drop-all) and hand-built schema-level / two-schema change sets x qualifier {not requested, empty, custom} x 4 plan modes: with the empty qualifier no Cmd or reverse statement may mention the marker-named schema or create/drop/alter a schema, schema-level and cross-schema change sets must be rejected; with a custom qualifier every table, enum-type and (PostgreSQL) index reference must carry exactly that qualifier.",
+   "For the MySQL and PostgreSQL planners: change sets from the real differ (every single edit of the differ universe, thorough every compatible pair; create-all, drop-all) and hand-built schema-level / two-schema change sets x qualifier {not requested, empty, custom, marker, other schema} x 4 plan modes: with the empty qualifier no Cmd or reverse statement may mention the marker-named schema or create/drop/alter a schema, schema-level and cross-schema change sets must be rejected; with a custom qualifier every table, enum-type and (PostgreSQL) index reference must carry exactly that qualifier.",
    "Connection-less DefaultPlan planners; identifier recognition relies on the universe's names being collision-free."),
  "C17": ("exploration",
    "bounded-exhaustive enumeration of plans; reversible ones are executed up and down on a real SQLite engine and the catalogue compared; down files of all formatters compared with the reverse statements",
-   "The C01 pair space x 2 indent settings x desired state {evaluated from HCL, inspected from a live database}: Reversible must hold exactly when every schema-changing statement has a reverse, a table rebuild is never reversible, the down part written by each of the 5 third-party formatters equals the reverse statements in reverse change order (per changeset for Liquibase), and for every reversible plan up followed by down on the real engine restores the catalogue and leaves no atlas diff in either direction.",
+   "The C01 pair space x 2 indent settings x desired state {evaluated from HCL, inspected from a live database}: Reversible must hold exactly when every schema-changing statement has a reverse, a table rebuild is never reversible, the down part written by each of the 5 third-party formatters equals the reverse statements in reverse change order (per changeset for Liquibase), and for every reversible plan up followed by down on the real engine restores the catalogue and leaves no atlas diff in either direction. At planner level (MySQL, PostgreSQL, TiDB through a mocked connection) every reverse statement of the differ universe's plans must alter something (no bare ALTER TABLE) and carry as many clauses as the forward statement changes.",
    "Engine execution is SQLite only; MySQL/PostgreSQL plans are covered for the flag and down-file parts by the planner-level checks."),
  "C18": ("model_checking",
    "explicit-state BFS over schema-evolution histories (canonical schema model as state); every history is materialised as a migration directory and analysed by the real `atlas migrate lint` against a real SQLite dev database, judged by a reference model of what each file destroys",
-   "BFS to depth 2 (thorough 3) over 16 evolutions (additive, destructive by DROP / ALTER DROP COLUMN / table rebuild, a column or table dropped and added back in the same file, non-destructive rebuilds, virtual-column drop, temporary table/column inside one file, rebuild followed by DROP TABLE, two rebuilds in one file): the last file of each history is hand-written SQL and, where expressible, also produced by the real `atlas migrate diff`; for every --latest N the real lint must exit non-zero with DS102/DS103 positioned on the causing statement for exactly the files inside the window that remove a pre-existing table or non-virtual column, and report no DS1xx elsewhere.",
+   "BFS to depth 2 (thorough 3) over 27 evolutions (additive, destructive by DROP / ALTER DROP COLUMN / table rebuild, a column or table dropped and added back in the same file, non-destructive rebuilds, virtual-column drop, temporary table/column inside one file, rebuild followed by DROP TABLE, two rebuilds in one file, copy-and-drop without rename, long files, CRLF line endings): the last file of each history is hand-written SQL and, where expressible, also produced by the real `atlas migrate diff`; for every --latest N the real lint must exit non-zero with DS102/DS103 positioned on the causing statement for exactly the files inside the window that remove a pre-existing table or non-virtual column, and report no DS1xx elsewhere.",
    "SQLite dev database; evolutions are drawn from the stated alphabet (not random schemas)."),
  "C19": ("exploration",
    "bounded-exhaustive enumeration of exclude patterns on a real SQLite engine against a reference of the glob semantics, and of all subsets of skippable change kinds through the three real differs against the filtered unskipped diff",
-   "(a) every pattern table[.child][type selector] from a 10 x 8 x 9 grid (thorough: every unordered pair of patterns) is applied through InspectSchema and InspectRealm on a real SQLite database with colliding names; every table, column, index, foreign key and check must be absent iff the reference (path.Match + selectors) says a pattern matches it. (b) for MySQL, PostgreSQL and SQLite differs a change set with every skippable kind at every nesting level is diffed under all 2^15 subsets of the policy kinds; the result must equal the unskipped diff with those kinds filtered out recursively (empty ModifyTable/ModifySchema vanish). (c) end to end: the real `atlas schema apply --auto-approve` on a SQLite file whose current and desired states disagree on 3 tables and 3 columns x every set of <=2 of 9 exclude patterns x {--exclude flags, env exclude} x {dev database, none} x desired state {HCL file, database URL}, and all 15 non-empty subsets of diff.skip {add_table, drop_table, add_column, drop_column} in a project file: a resource stays exactly as it was iff a pattern matches it / its change kind is skipped, everything else reaches the desired state, rows survive, a second apply is a no-op.",
+   "(a) every pattern table[.child][type selector] from a 10 x 8 x 9 grid (thorough: every unordered pair of patterns) is applied through InspectSchema and InspectRealm on a real SQLite database with colliding names; every table, column, index, foreign key and check must be absent iff the reference (path.Match + selectors) says a pattern matches it. (b) for MySQL, PostgreSQL and SQLite differs a change set with every skippable kind at every nesting level is diffed under all 2^15 subsets of the policy kinds; the result must equal the unskipped diff with those kinds filtered out recursively (empty ModifyTable/ModifySchema vanish). (c) end to end: the real `atlas schema apply --auto-approve` on a SQLite file whose current and desired states disagree on 3 tables and 3 columns x every set of <=2 of 9 exclude patterns x {--exclude flags, env exclude} x {dev database, none} x desired state {HCL file, database URL}, and all 15 non-empty subsets of diff.skip {add_table, drop_table, add_column, drop_column} given by {project file, env block with its own diff}: a resource stays exactly as it was iff a pattern matches it / its change kind is skipped, everything else reaches the desired state, rows survive, a second apply is a no-op.",
    "The fate of indexes/foreign keys built on an excluded column is unspecified by the documentation and not judged; the CLI slice uses one fixed pair of schemas."),
  "C20": ("exploration",
    "stateless exploration with Go's map-iteration order turned into a harness-chosen environment answer (runtime overlay): deviation-bounded enumeration of iteration starts per call site, hash seeds per process, operation sequences and declaration-order permutations, all compared byte for byte with the default run",
-   "The check binary is linked against a Go runtime whose map-iteration start (per call site) and per-map hash seed are chosen by the harness. For 16 operations over the real planners/differs/codecs/formatters/directories the baseline output must be byte-identical under: every site shifted at once (14 values), one site at a time (bound 1; thorough: pairs of atlas sites, bound 2), worker processes with different hash seeds, and really random processes; planning the same change set twice in one process must give the same plan; every sequence of <=2 (thorough 3) operations must leave the last operation's output equal to its solo output in a fresh process; all permutations of top-level and index blocks (and reversed FK/check blocks) of an HCL source must give the same statements (as clause multisets) and the same SQLite catalogue. Every unordered pair of the 16 operations (and each with itself) is additionally run at the same time in a separate binary built with -race: outputs must equal the solo outputs and the race detector must stay silent.",
+   "The check binary is linked against a Go runtime whose map-iteration start (per call site) and per-map hash seed are chosen by the harness. For 17 operations over the real planners/differs/codecs/formatters/directories the baseline output must be byte-identical under: every site shifted at once (14 values), one site at a time (bound 1; thorough: pairs of atlas sites, bound 2), worker processes with different hash seeds, and really random processes; planning the same change set twice in one process must give the same plan; every sequence of <=2 (thorough 3) operations must leave the last operation's output equal to its solo output in a fresh process; all permutations of top-level and index blocks (and reversed FK/check blocks) of an HCL source must give the same statements (as clause multisets) and the same SQLite catalogue. Every unordered pair of the 16 operations (and each with itself) is additionally run at the same time in a separate binary built with -race: outputs must equal the solo outputs and the race detector must stay silent. 10 real CLI commands (binary built with the same runtime) x hash seeds x iteration starts must print byte-identical output.",
    "The operations have no synchronisation below operation granularity, so a controlled scheduler has nothing to interleave: unsynchronised sharing is decided by the free-running -race pass over all operation pairs (its interleavings are the ones that occurred, not an enumeration); the Go toolchain plus a one-function runtime patch is trusted."),
 }
 NOT_APPLICABLE = {}
@@ -126,7 +126,7 @@ def main():
         "engines": [{
             "name": "verif-explorer", "path": "/verif/engine",
             "serves_properties": sorted(CHECKS),
-            "kind_free_text": "hand-written Go explorer: stateless deviation-bounded DFS over choice points (engine/explore), explicit-state BFS over operation histories with canonical-state dedup (engine/bfs), bounded-exhaustive enumerators (engine/enum); all drive the real atlas code (in-process packages or the real CLI binary) and judge every execution with an independent reference model",
+            "kind_free_text": "hand-written Go explorer: stateless deviation-bounded DFS over choice points (engine/explore), explicit-state BFS over operation histories with canonical-state dedup (in the C06/C11/C18 checks), bounded-exhaustive enumerators (engine/enum); all drive the real atlas code (in-process packages or the real CLI binary) and judge every execution with an independent reference model",
         }],
         "checks": checks,
         "not_applicable": na,
